@@ -722,3 +722,231 @@ Proof.
   unfold half_won in H. rewrite !Ey in H. rewrite <- H.
   destruct (joint_vote_result inc out c); split; intros; congruence.
 Qed.
+
+(* ------------------------------------------------------------------ *)
+(** * Quorum intersection *)
+
+(* predicate form: two majorities of the same list share a position.  No NoDup
+   needed: it is a counting argument over list positions. *)
+Theorem quorum_intersect_pred : forall (V : list N) (p q : N -> bool),
+  (majority (length V) <= count p V)%nat ->
+  (majority (length V) <= count q V)%nat ->
+  exists v, In v V /\ p v = true /\ q v = true.
+Proof.
+  intros V p q Hp Hq.
+  pose proof (count_inter _ p q V) as Hi.
+  pose proof (majority_gt_half (length V)) as Hm.
+  destruct (count_pos_ex _ (fun x => p x && q x) V) as [v [Hv Hpq]]; [lia|].
+  apply andb_true_iff in Hpq. exists v. tauto.
+Qed.
+
+Lemma NoDup_app_disjoint : forall (A B : list N),
+  NoDup A -> NoDup B -> (forall x, In x A -> ~ In x B) -> NoDup (A ++ B).
+Proof.
+  intros A B HA HB Hd. induction A as [|a A IH]; [exact HB|].
+  cbn [app]. apply NoDup_cons_iff in HA. destruct HA as [Ha HA].
+  constructor.
+  - rewrite in_app_iff. intros [H|H]; [contradiction|].
+    apply (Hd a); [left; reflexivity|exact H].
+  - apply IH; [exact HA|]. intros x Hx. apply Hd. right. exact Hx.
+Qed.
+
+(* set form: two sub-sets of the voters with a majority of members each share a
+   member (pigeonhole via NoDup_incl_length) *)
+Theorem quorum_intersect : forall (V A B : list N),
+  NoDup V -> NoDup A -> NoDup B -> incl A V -> incl B V ->
+  (majority (length V) <= length A)%nat ->
+  (majority (length V) <= length B)%nat ->
+  exists x, In x A /\ In x B.
+Proof.
+  intros V A B HV HA HB HAV HBV HlA HlB.
+  destruct (existsb (fun x => mem x B) A) eqn:E.
+  - apply existsb_exists in E. destruct E as [x [Hx Hm]]. apply mem_In in Hm.
+    exists x. tauto.
+  - exfalso.
+    assert (Hd : forall x, In x A -> ~ In x B).
+    { intros x Hx Hb.
+      assert (existsb (fun x => mem x B) A = true); [|congruence].
+      apply existsb_exists. exists x. split; [exact Hx|apply mem_In, Hb]. }
+    pose proof (NoDup_app_disjoint A B HA HB Hd) as Hnd.
+    assert (Hincl : incl (A ++ B) V) by (apply incl_app; assumption).
+    pose proof (NoDup_incl_length Hnd Hincl) as Hlen. rewrite app_length in Hlen.
+    pose proof (majority_gt_half (length V)). lia.
+Qed.
+
+(* two winning vote assignments of the same majority config share a granting voter *)
+Theorem vote_won_intersect : forall V c1 c2, V <> [] ->
+  vote_result V c1 = VoteWon -> vote_result V c2 = VoteWon ->
+  exists v, In v V /\ c1 v = Some true /\ c2 v = Some true.
+Proof.
+  intros V c1 c2 HV H1 H2.
+  apply vote_result_spec in H1; [|exact HV]. apply vote_result_spec in H2; [|exact HV].
+  destruct (quorum_intersect_pred V (is_yes c1) (is_yes c2) H1 H2) as [v [Hv [Y1 Y2]]].
+  exists v. unfold is_yes in Y1, Y2.
+  destruct (c1 v) as [[|]|]; try discriminate. destruct (c2 v) as [[|]|]; try discriminate.
+  auto.
+Qed.
+
+(* joint: two winning assignments share a granting voter in EACH non-empty half *)
+Theorem joint_vote_won_intersect : forall inc out c1 c2,
+  joint_vote_result inc out c1 = VoteWon -> joint_vote_result inc out c2 = VoteWon ->
+  (inc <> [] -> exists v, In v inc /\ c1 v = Some true /\ c2 v = Some true) /\
+  (out <> [] -> exists v, In v out /\ c1 v = Some true /\ c2 v = Some true).
+Proof.
+  intros inc out c1 c2 H1 H2.
+  apply joint_vote_result_spec in H1. apply joint_vote_result_spec in H2.
+  destruct H1 as [Hi1 Ho1], H2 as [Hi2 Ho2].
+  split; intros HV; apply vote_won_intersect; assumption.
+Qed.
+
+(* has_quorum: two quorums of the same joint config share a member in each
+   non-empty half *)
+Theorem has_quorum_intersect : forall inc out S1 S2,
+  has_quorum inc out S1 = true -> has_quorum inc out S2 = true ->
+  (inc <> [] -> exists v, In v inc /\ In v S1 /\ In v S2) /\
+  (out <> [] -> exists v, In v out /\ In v S1 /\ In v S2).
+Proof.
+  intros inc out S1 S2 H1 H2.
+  apply has_quorum_spec in H1. apply has_quorum_spec in H2.
+  destruct H1 as [[Ei1|Hi1] [Eo1|Ho1]], H2 as [[Ei2|Hi2] [Eo2|Ho2]];
+    split; intros HV; try congruence;
+    match goal with
+    | Ha : (majority (length ?V) <= count _ ?V)%nat,
+      Hb : (majority (length ?V) <= count _ ?V)%nat |- exists v, In v ?V /\ _ =>
+        destruct (quorum_intersect_pred V _ _ Ha Hb) as [v [Hv [M1 M2]]];
+        apply mem_In in M1; apply mem_In in M2; exists v; tauto
+    end.
+Qed.
+
+(* a winning vote and a commit witness intersect: some voter both granted the vote
+   and acknowledged an index >= i  (the step "the new leader has every committed
+   entry" of the protocol proof) *)
+Theorem vote_commit_intersect : forall V c a i, V <> [] ->
+  vote_result V c = VoteWon ->
+  i <= fst (committed_index false V a) ->
+  exists v, In v V /\ c v = Some true /\ i <= idx_of a v.
+Proof.
+  intros V c a i HV Hw Hi.
+  apply vote_result_spec in Hw; [|exact HV].
+  apply committed_index_iff in Hi; [|exact HV].
+  destruct (quorum_intersect_pred V (is_yes c) (fun v => i <=? idx_of a v) Hw Hi)
+    as [v [Hv [Y G]]].
+  exists v. unfold is_yes in Y. destruct (c v) as [[|]|]; try discriminate.
+  repeat split; [exact Hv|lia].
+Qed.
+
+(* ------------------------------------------------------------------ *)
+(** * Joint commit index *)
+
+Theorem joint_committed_index_min : forall gc inc out a,
+  joint_committed_index gc inc out a =
+  (N.min (fst (committed_index gc inc a)) (fst (committed_index gc out a)),
+   snd (committed_index gc inc a) && snd (committed_index gc out a)).
+Proof.
+  intros gc inc out a. unfold joint_committed_index.
+  destruct (committed_index gc inc a), (committed_index gc out a). reflexivity.
+Qed.
+
+Theorem joint_committed_index_empty : forall gc a,
+  joint_committed_index gc [] [] a = (u64_max, true).
+Proof. reflexivity. Qed.
+
+(* "i is acknowledged by a majority of each non-empty half" *)
+Definition joint_acked (a : acked_t) (inc out : list N) (i : N) : Prop :=
+  (inc = [] \/ quorum_acked a inc i) /\ (out = [] \/ quorum_acked a out i).
+
+(* for every representable index i: i <= joint commit index iff i is acknowledged by
+   a majority of each non-empty half *)
+Theorem joint_committed_index_iff : forall inc out a i, i <= u64_max ->
+  (i <= fst (joint_committed_index false inc out a) <-> joint_acked a inc out i).
+Proof.
+  intros inc out a i Hi. rewrite joint_committed_index_min. cbn [fst].
+  unfold joint_acked.
+  assert (H : forall V, (i <= fst (committed_index false V a) <->
+                         V = [] \/ quorum_acked a V i)).
+  { intros V. destruct V as [|v V0].
+    - rewrite committed_index_empty. cbn [fst]. tauto.
+    - assert (HV : v :: V0 <> []) by discriminate.
+      rewrite (committed_index_iff _ a i HV). split; [auto|].
+      intros [E|E]; [discriminate|exact E]. }
+  rewrite <- !H. lia.
+Qed.
+
+Definition acked_bounded (a : acked_t) : Prop :=
+  forall v i g, a v = Some (i, g) -> i <= u64_max.
+
+Lemma idx_of_bounded : forall a v, acked_bounded a -> idx_of a v <= u64_max.
+Proof.
+  intros a v H. unfold idx_of, acked_or_default. destruct (a v) as [[i g]|] eqn:E.
+  - cbn [fst]. exact (H v i g E).
+  - cbn. unfold u64_max. lia.
+Qed.
+
+Lemma committed_index_bounded : forall V a, acked_bounded a ->
+  fst (committed_index false V a) <= u64_max.
+Proof.
+  intros V a H. destruct V as [|v V0]; [cbn; lia|].
+  destruct (committed_index_acked (v :: V0) a) as [w [_ E]]; [discriminate|].
+  rewrite E. apply idx_of_bounded, H.
+Qed.
+
+(* with u64 indexes and at least one non-empty half: the joint commit index is the
+   LARGEST index acknowledged by a majority of each non-empty half *)
+Theorem joint_committed_index_largest : forall inc out a,
+  acked_bounded a -> (inc <> [] \/ out <> []) ->
+  let r := fst (joint_committed_index false inc out a) in
+  joint_acked a inc out r /\ (forall i, joint_acked a inc out i -> i <= r).
+Proof.
+  intros inc out a Hb Hne. cbn zeta.
+  assert (Hr : fst (joint_committed_index false inc out a) <= u64_max).
+  { rewrite joint_committed_index_min. cbn [fst].
+    pose proof (committed_index_bounded inc a Hb). lia. }
+  split.
+  - apply joint_committed_index_iff; [exact Hr|lia].
+  - intros i Hi. apply joint_committed_index_iff; [|exact Hi].
+    (* i is acknowledged by someone, hence representable *)
+    assert (Hex : exists V, V <> [] /\ quorum_acked a V i).
+    { destruct Hi as [[Ei|Hi] [Eo|Ho]].
+      - subst. destruct Hne; congruence.
+      - exists out. destruct Hne; [subst; congruence|]. auto.
+      - exists inc. destruct Hne; [|subst; congruence]. auto.
+      - destruct Hne; [exists inc|exists out]; auto. }
+    destruct Hex as [V [HV Hq]]. unfold quorum_acked in Hq.
+    pose proof (majority_pos (length V)).
+    destruct (count_pos_ex _ (fun v => i <=? idx_of a v) V) as [v [_ Hv]];
+      [unfold cnt_ge in Hq; lia|].
+    pose proof (idx_of_bounded a v Hb). lia.
+Qed.
+
+(* a half-populated joint config behaves like the other half *)
+Theorem joint_committed_index_empty_out : forall V a, acked_bounded a ->
+  fst (joint_committed_index false V [] a) = fst (committed_index false V a).
+Proof.
+  intros V a Hb. rewrite joint_committed_index_min, committed_index_empty. cbn [fst].
+  pose proof (committed_index_bounded V a Hb). lia.
+Qed.
+
+Theorem joint_committed_index_perm : forall inc inc' out out' a,
+  Permutation inc inc' -> Permutation out out' ->
+  joint_committed_index false inc out a = joint_committed_index false inc' out' a.
+Proof.
+  intros inc inc' out out' a Hi Ho. unfold joint_committed_index.
+  rewrite (committed_index_perm _ _ a Hi), (committed_index_perm _ _ a Ho). reflexivity.
+Qed.
+
+(* joint election winner and joint commit witness intersect in each non-empty half *)
+Theorem joint_vote_commit_intersect : forall inc out c a i,
+  joint_vote_result inc out c = VoteWon ->
+  i <= fst (joint_committed_index false inc out a) ->
+  (inc <> [] -> exists v, In v inc /\ c v = Some true /\ i <= idx_of a v) /\
+  (out <> [] -> exists v, In v out /\ c v = Some true /\ i <= idx_of a v).
+Proof.
+  intros inc out c a i Hw Hi. apply joint_vote_result_spec in Hw. destruct Hw as [Wi Wo].
+  rewrite joint_committed_index_min in Hi. cbn [fst] in Hi.
+  split; intros HV; apply vote_commit_intersect; try assumption; lia.
+Qed.
+
+(* tracker level: maximal_committed_index is the joint commit index of the progress map *)
+Theorem maximal_committed_index_spec : forall gc inc out p,
+  maximal_committed_index gc inc out p = joint_committed_index gc inc out (acked_of p).
+Proof. reflexivity. Qed.
